@@ -11,10 +11,10 @@ Supported call positions: expression statement, right-hand side of an
 assignment / return, the test of ``if`` / ``while`` when the call is evaluated
 first, and calls nested in the expression of such a statement as long as
 nothing impure is evaluated before them.  Helpers whose ``return`` statements
-sit in tail positions (guard clauses included) are spliced structurally; other
-helpers are wrapped in a one-iteration loop (``return`` -> assign + ``break``);
-helpers that return from inside their own loops, generators, and recursive or
-variadic helpers are left as calls.
+can be put in tail position (guard clauses, ``try ... except: return`` followed by
+more code, an ``if`` that returns on some paths only) are spliced structurally,
+duplicating at most MAX_DUP trailing statements; helpers that return from inside
+their own loops, generators, and recursive or variadic helpers are left as calls.
 """
 import ast
 import copy
@@ -24,6 +24,7 @@ from .model import FunctionInfo, set_parents, walk_no_nested, dotted
 PURE_BUILTINS = {'len', 'int', 'float', 'str', 'repr', 'bool', 'isinstance', 'tuple', 'list', 'dict', 'set', 'min', 'max',
                  'sorted', 'abs', 'round', 'range', 'enumerate', 'zip', 'getattr', 'hasattr', 'type', 'id'}
 MAX_BODY = 60
+MAX_DUP = 10      # statements that may be duplicated when a helper's `if` returns on some paths only
 
 # Functions that rules are anchored in (or that are part of carbon's API): they are analysed in their own right and are
 # never spliced into their callers.  Everything else that is simple enough counts as a helper.
@@ -339,16 +340,9 @@ class Inliner(object):
     body = node.body
     if body and isinstance(body[0], ast.Expr) and isinstance(body[0].value, ast.Constant) and isinstance(body[0].value.value, str):
       body = body[1:]
-    tail = _tailify(body, ret)
-    if tail is not None:
-      new_body = tail
-    else:
-      if _return_inside_loop(body):
-        return None
-      new_body = [ast.For(target=ast.Name(id='__once%d' % k, ctx=ast.Store()),
-                          iter=ast.Tuple(elts=[ast.Constant(value=None)], ctx=ast.Load()),
-                          body=_returns_to_break(body, ret) or [ast.Pass()], orelse=[])]
-      new_body = [ast.Assign(targets=[ast.Name(id=ret, ctx=ast.Store())], value=ast.Constant(value=None))] + new_body
+    new_body = _tailify(body, ret)
+    if new_body is None:
+      return None       # returns that are not in tail position (inside the helper's own loops, ...): the call stays
     for st in new_body:
       for x in ast.walk(st):
         if isinstance(x, ast.Name) and x.id in rename:
@@ -445,77 +439,76 @@ def _tailify(stmts, ret):
   n = len(stmts)
   for i, s in enumerate(stmts):
     rest = stmts[i + 1:]
+    if isinstance(s, ast.Raise):
+      out.append(s)
+      return out
     if isinstance(s, ast.Return):
       val = s.value if s.value is not None else ast.Constant(value=None)
       out.append(ast.copy_location(ast.Assign(targets=[ast.Name(id=ret, ctx=ast.Store())], value=val), s))
       return out
     if isinstance(s, ast.If) and (_has_return(s.body) or _has_return(s.orelse)):
-      body_ends = _always_returns(s.body)
-      else_ends = _always_returns(s.orelse) if s.orelse else False
-      if body_ends and not s.orelse:
-        # guard clause: if c: ...return   ;  rest
-        b = _tailify(s.body, ret)
-        r = _tailify(rest, ret) if rest else [ast.copy_location(ast.Assign(targets=[ast.Name(id=ret, ctx=ast.Store())], value=ast.Constant(value=None)), s)]
-        if b is None or r is None:
+      # the statements after the if continue each branch that can fall through; they are duplicated only when both can
+      both_fall = not _always_returns(s.body) and not (s.orelse and _always_returns(s.orelse))
+      if both_fall and _count_stmts(rest) > MAX_DUP:
+        return None
+      b = _tailify(list(s.body) + ([_clone(x) for x in rest] if both_fall else list(rest)), ret)
+      e = _tailify(list(s.orelse) + list(rest), ret)
+      if b is None or e is None:
+        return None
+      out.append(ast.copy_location(ast.If(test=s.test, body=b, orelse=e), s))
+      return out
+    if isinstance(s, (ast.With, ast.AsyncWith)) and _has_return([s]):
+      if not _always_returns(s.body) and rest:
+        return None
+      b = _tailify(s.body, ret)
+      if b is None:
+        return None
+      out.append(ast.copy_location(type(s)(items=s.items, body=b), s))
+      return out
+    if isinstance(s, ast.Try) and _has_return([s]):
+      if (s.finalbody and _has_return(s.finalbody)) or (s.orelse and _has_return(s.body)):
+        return None
+      none = ast.copy_location(ast.Assign(targets=[ast.Name(id=ret, ctx=ast.Store())], value=ast.Constant(value=None)), s)
+      body_falls = not _always_returns(s.body + (s.orelse or []))
+      falls = [h for h in s.handlers if not _always_returns(h.body)]
+      if not rest or (not body_falls and not falls):
+        # nothing (reachable) follows the try: every piece is in tail position
+        b = _tailify_fall(s.body, ret)
+        oe = _tailify_fall(s.orelse, ret) if s.orelse else []
+        hs = []
+        for h in s.handlers:
+          hb = _tailify_fall(h.body, ret)
+          if hb is None:
+            return None
+          hs.append(ast.copy_location(ast.ExceptHandler(type=h.type, name=h.name, body=hb), h))
+        if b is None or oe is None:
           return None
-        out.append(ast.copy_location(ast.If(test=s.test, body=b, orelse=r), s))
+        out.append(none)
+        out.append(ast.copy_location(ast.Try(body=b, handlers=hs, orelse=oe, finalbody=s.finalbody), s))
         return out
-      if body_ends and else_ends:
-        b, e = _tailify(s.body, ret), _tailify(s.orelse, ret)
-        if b is None or e is None:
+      if body_falls and not falls and not _has_return(s.body) and not s.finalbody:
+        # try: A / except: ...return   followed by rest  ==  try: A / except: ...return / else: rest
+        oe = _tailify(list(s.orelse or []) + rest, ret)
+        hs = []
+        for h in s.handlers:
+          hb = _tailify(h.body, ret)
+          if hb is None:
+            return None
+          hs.append(ast.copy_location(ast.ExceptHandler(type=h.type, name=h.name, body=hb), h))
+        if oe is None:
           return None
-        out.append(ast.copy_location(ast.If(test=s.test, body=b, orelse=e), s))
-        return out
-      if else_ends and not body_ends and not _has_return(s.body):
-        e = _tailify(s.orelse, ret)
-        r = _tailify(s.body + rest, ret)
-        if e is None or r is None:
-          return None
-        out.append(ast.copy_location(ast.If(test=s.test, body=r, orelse=e), s))
-        return out
-      if body_ends and s.orelse and not _has_return(s.orelse):
-        b = _tailify(s.body, ret)
-        r = _tailify(s.orelse + rest, ret)
-        if b is None or r is None:
-          return None
-        out.append(ast.copy_location(ast.If(test=s.test, body=b, orelse=r), s))
+        out.append(ast.copy_location(ast.Try(body=s.body, handlers=hs, orelse=oe, finalbody=[]), s))
         return out
       return None
-    if isinstance(s, ast.Try) and _has_return([s]):
-      if i != n - 1:
-        # a try containing returns followed by more statements
-        if not (_always_returns(s.body) or s.handlers):
-          return None
-      b = _tailify_fall(s.body, ret)
-      hs = []
-      for h in s.handlers:
-        hb = _tailify_fall(h.body, ret)
-        if hb is None:
-          return None
-        hs.append(ast.copy_location(ast.ExceptHandler(type=h.type, name=h.name, body=hb), h))
-      oe = _tailify_fall(s.orelse, ret) if s.orelse else []
-      if b is None or oe is None or s.finalbody and _has_return(s.finalbody):
-        return None
-      # only valid when every path through the try that returns is in tail position and nothing after it depends on falling through
-      if rest and (_has_return(s.body) or any(_has_return(h.body) for h in s.handlers)):
-        if not all(_always_returns(x) for x in [s.body + (s.orelse or [])] + [h.body for h in s.handlers] if _has_return(x)):
-          return None
-        # paths that fall through continue with `rest`: not expressible without duplication -> give up if any path falls through
-        if not (_always_returns(s.body + (s.orelse or [])) and all(_always_returns(h.body) for h in s.handlers)):
-          # duplicate the rest into the falling-through branches is unsafe: bail out
-          return None
-      out.append(ast.copy_location(ast.Try(body=b, handlers=hs, orelse=oe, finalbody=s.finalbody), s))
-      if rest and not (_always_returns(s.body + (s.orelse or [])) and all(_always_returns(h.body) for h in s.handlers)):
-        r = _tailify(rest, ret)
-        if r is None:
-          return None
-        out.extend(r)
-      return out
     if _has_return([s]):
       return None       # return inside a loop / with: not a tail form
     out.append(s)
   out.append(ast.Assign(targets=[ast.Name(id=ret, ctx=ast.Store())], value=ast.Constant(value=None)))
   return out
+
+
+def _count_stmts(stmts):
+  return sum(1 for st in stmts for x in ast.walk(st) if isinstance(x, ast.stmt))
 
 
 def _tailify_fall(stmts, ret):
@@ -536,37 +529,6 @@ def _always_returns(stmts):
   if isinstance(last, ast.Try):
     return _always_returns(last.body + (last.orelse or [])) and all(_always_returns(h.body) for h in last.handlers)
   return False
-
-
-def _return_inside_loop(stmts):
-  for s in stmts:
-    for x in walk_no_nested(s):
-      if isinstance(x, (ast.For, ast.While)):
-        if any(isinstance(y, ast.Return) for y in walk_no_nested(x)):
-          return True
-  return False
-
-
-def _returns_to_break(stmts, ret):
-  class R(ast.NodeTransformer):
-    def visit_Return(self, node):
-      val = node.value if node.value is not None else ast.Constant(value=None)
-      return [ast.copy_location(ast.Assign(targets=[ast.Name(id=ret, ctx=ast.Store())], value=val), node),
-              ast.copy_location(ast.Break(), node)]
-
-    def visit_FunctionDef(self, node):
-      return node
-
-    def visit_Lambda(self, node):
-      return node
-  out = []
-  for s in stmts:
-    r = R().visit(s)
-    if isinstance(r, list):
-      out.extend(r)
-    else:
-      out.append(r)
-  return out
 
 
 # ---------------------------------------------------------------------- whole-program normalisation
